@@ -570,6 +570,37 @@ def sweetpea_root():
     return os.path.dirname(os.path.dirname(os.path.abspath(sweetpea.__file__)))
 
 
+SELFTEST = {   # seeded source edits the analyser must notice (as a write or as an unrecognised construct)
+    "restore_continuous": "    block.restore_continuous()\n",
+    "alias-append": "    d = block.design\n    d.append(block.continuous_factors[0])\n",
+    "getattr-call": "    getattr(block, 'restore_' + 'continuous')()\n",
+    "shallow-copy": "    import copy\n    copy.copy(block).design.append(1)\n",
+}
+
+
+def analyser_selftest(root, baseline_pairs):
+    """The analyser is run on scratch copies of the source with print_experiments edited to write block.design in
+    four ways; each edit has to show up.  Returns the names of the edits it missed."""
+    anchor = "    ls_name = None\n    ls_dlen = 0\n"
+    src = os.path.join(root, "sweetpea", "_internal", "main.py")
+    base = open(src).read()
+    if anchor not in base:
+        return ["anchor-missing"]
+    tmp = tempfile.mkdtemp(prefix="verif_c19_ws_", dir="/tmp")
+    missed = []
+    try:
+        shutil.copytree(os.path.join(root, "sweetpea"), os.path.join(tmp, "sweetpea"),
+                        ignore=shutil.ignore_patterns("__pycache__", "tests", "*.pyc"))
+        for name, code in SELFTEST.items():
+            open(os.path.join(tmp, "sweetpea", "_internal", "main.py"), "w").write(base.replace(anchor, code + anchor, 1))
+            r = writeset.analyse(writeset.C19_ENTRIES, tmp)
+            if not (set(r.pairs()) - baseline_pairs) and not r.unrecognised:
+                missed.append(name)
+    finally:
+        shutil.rmtree(tmp, ignore_errors=True)
+    return missed
+
+
 def check_writeset(ctx, res):
     root = sweetpea_root()
     rep = writeset.analyse(writeset.C19_ENTRIES, root)
@@ -585,7 +616,13 @@ def check_writeset(ctx, res):
                             "writes_into_plain_parameters": sorted(map(list, rep.param_item_writes))}
     res.layer("writeset:recognised", not rep.unrecognised)
     res.layer("writeset:declared", not undeclared)
+    missed = analyser_selftest(root, found)
+    res.extra["writeset"]["selftest_edits_missed"] = missed
+    res.layer("writeset:selftest", not missed)
     problems = []
+    if missed:
+        problems.append(Violation("corr:writeset-selftest", "the write-set analyser does not notice seeded writes of block.design: %s"
+                                  % missed, {"layer": "writeset", "missed": missed}, failing_input=False))
     if rep.unrecognised:
         problems.append(Violation(
             "corr:writeset-unrecognised",
